@@ -254,10 +254,26 @@ def register_dataclass_type_with_jax_tree_util(data_class):
         in instance.__dict__.
     """
     field_names = frozenset(f.name for f in dataclasses.fields(data_class))
-    flatten = lambda d: tuple(
-        zip(*sorted((k, v) for k, v in d.__dict__.items() if k in field_names))
-    )[::-1]
-    unflatten = lambda keys, values: data_class(**dict(zip(keys, values)))
+
+    def _is_static(value):
+        # Python scalars (e.g. dimensions) and callables are configuration, not data:
+        # they must stay concrete under jit, so they travel as auxiliary data.
+        return isinstance(value, (bool, int, str)) or (
+            callable(value) and not dataclasses.is_dataclass(value)
+        )
+
+    def flatten(d):
+        items = sorted((k, v) for k, v in d.__dict__.items() if k in field_names)
+        dynamic = tuple((k, v) for k, v in items if not _is_static(v))
+        static = tuple((k, v) for k, v in items if _is_static(v))
+        keys = tuple(k for k, _ in dynamic)
+        values = tuple(v for _, v in dynamic)
+        return values, (keys, static)
+
+    def unflatten(aux, values):
+        keys, static = aux
+        return data_class(**dict(zip(keys, values)), **dict(static))
+
     try:
         jax.tree_util.register_pytree_node(
             nodetype=data_class, flatten_func=flatten, unflatten_func=unflatten
